@@ -12,6 +12,7 @@ import (
 	"encoding/base64"
 	"encoding/hex"
 	"encoding/json"
+	"errors"
 	"fmt"
 	"io"
 	"io/fs"
@@ -121,7 +122,7 @@ func (r *httpRig) raw(method, target string, hdr map[string]string, body []byte)
 		return nil, fmt.Errorf("VERIF-HARNESS-ERROR dial: %w", err)
 	}
 	defer c.Close()
-	c.SetDeadline(time.Now().Add(20 * time.Second))
+	c.SetDeadline(time.Now().Add(60 * time.Second))
 	var b bytes.Buffer
 	fmt.Fprintf(&b, "%s %s HTTP/1.1\r\n", method, target)
 	if _, ok := hdr["Host"]; !ok {
@@ -147,6 +148,12 @@ func (r *httpRig) raw(method, target string, hdr map[string]string, body []byte)
 			// the server answered and closed before reading a large body: the reset can
 			// destroy the response in flight; this is not "no response"
 			return nil, errInconclusive
+		}
+		var ne net.Error
+		if errors.As(err, &ne) && ne.Timeout() {
+			// a time limit is not a verdict: with every core busy a request was once not answered within 20 s.  (A handler
+			// that panics closes the connection, which is seen as EOF or a reset, not as a timeout.)
+			return nil, fmt.Errorf("VERIF-HARNESS-ERROR: no response within 60 s: %w", err)
 		}
 		return nil, err
 	}
